@@ -85,10 +85,7 @@ func walk(data []byte) (ztbl []string, jtbl []string) {
 
 func runRaw(data []byte, sizes []int, tailErr bool, measure bool) (caseStr, obs string) {
 	ztbl, jtbl := walk(data)
-	tail := "eof"
-	if tailErr {
-		tail = "err"
-	}
+	tail := tailTok(tailErr)
 	var sb strings.Builder
 	fmt.Fprintf(&sb, "raw %s ztbl %d", tail, len(ztbl)/2)
 	if len(ztbl) > 0 {
@@ -112,7 +109,7 @@ func runRaw(data []byte, sizes []int, tailErr bool, measure bool) (caseStr, obs 
 
 func replayRaw(out *vc.Out, toks []string) {
 	// raw <tail> ztbl n … jtbl m … st <hex> ch k sizes
-	tailErr := toks[1] == "err"
+	tailErr := setTail(toks[1])
 	i := 2
 	n, _ := strconv.Atoi(toks[i+1])
 	i += 2 + 2*n
@@ -131,7 +128,15 @@ func replayRaw(out *vc.Out, toks []string) {
 }
 
 func emitRaw(out *vc.Out, data []byte, sizes []int, tailErr bool, kind string) {
+	if kind != "corpus" {
+		emitSeq++
+		endWithData = emitSeq%3 == 0
+	}
+	if endWithData {
+		out.Count("end-with-data")
+	}
 	c, o := runRaw(data, sizes, tailErr, true)
+	endWithData = false
 	f := strings.Fields(o)
 	stop := "?"
 	for i, t := range f {
